@@ -19,9 +19,12 @@ Statements:
 * `x = getattr(<attribute text>, "<name>", None)` for a designated pair: `x` is bound to that SINK (`let x := <parameter>`); such an `x`
   may only be tested (`x is not None`, `x is None`, `inspect.iscoroutinefunction(x)` / `asyncio.iscoroutinefunction(x)`: the `Sink`'s own
   Boolean functions) and called.  (A `getattr` whose look-up itself raises — a property — is not representable.)
+* `await maybe_await(x(args…))` as a statement, `x` a sink variable, `maybe_await` the helper imported at the top of the module
+  (await an awaitable, hand anything else on): `Rbacx.PyS.callMaybe "<attribute text>.<name>" x [args…]` — the sink's work runs once
+  in every spelling (plain `def`, `async def`, plain `def` returning an awaitable).
 * `x(args…)` / `await x(args…)` as a statement, `x` a sink variable, positional arguments only: `Rbacx.PyS.call "<attribute
-  text>.<name>" x <awaited> [args…]` — the label is the attribute path, not the local's name.  `<attribute text>.<name>(args…)` directly
-  likewise (an absent attribute raises there).
+  text>.<name>" x <awaited> [args…]` — the label is the attribute path, not the local's name; the work runs only when the way of
+  calling fits the sink's spelling.  `<attribute text>.<name>(args…)` directly likewise (an absent attribute raises there).
 * `try: B except Exception: H` (one handler, `Exception` / `BaseException` / bare, no `as`, no else/finally): `Rbacx.PyS.tryExcept B H`;
   a name first bound in `B` may not be read after the `try` or in `H`.  What `raised` stands for is an `Exception` coming out of a sink
   call; the pure expressions of the tail (dict displays, record fields, `is None` tests) do not raise on the values they are given.
@@ -162,11 +165,25 @@ class SinkTranslator(pa.AsyncTranslator):
         return any(isinstance(n, ast.Call) and isinstance(n.func, ast.Name) and n.func.id in self.scfg.opaque_calls and n.func.id not in self.locals
                    for n in ast.walk(e))
 
-    def sink_call(self, st: ast.stmt) -> tuple[str, str, bool, ast.Call] | None:
-        """(label, Lean term of the sink, awaited, call) for `x(args…)` / `await x(args…)` / `<attr text>.<name>(args…)` as a statement"""
+    def _imported_helper(self, name: str) -> bool:
+        """`name` is imported by a top-level `from … import name` and never rebound (the engine's `maybe_await`)"""
+        imported = any(isinstance(n, ast.ImportFrom) and any(a.name == name and a.asname is None for a in n.names) for n in self.tree.body)
+        rebound = any(isinstance(n, ast.Name) and n.id == name and isinstance(n.ctx, ast.Store) for n in ast.walk(self.tree)) \
+            or any(isinstance(n, (ast.FunctionDef, ast.AsyncFunctionDef, ast.ClassDef)) and n.name == name for n in ast.walk(self.tree))
+        return imported and not rebound and name not in self.locals
+
+    def sink_call(self, st: ast.stmt) -> tuple[str, str, bool | str, ast.Call] | None:
+        """(label, Lean term of the sink, awaited, call) for `x(args…)` (awaited False) / `await x(args…)` (True) /
+        `await maybe_await(x(args…))` ("maybe") as a statement, `x` a sink variable or `<attr text>.<name>` directly"""
         if not isinstance(st, ast.Expr):
             return None
         e, awaited = (st.value.value, True) if isinstance(st.value, ast.Await) else (st.value, False)
+        if awaited and isinstance(e, ast.Call) and isinstance(e.func, ast.Name) and e.func.id == "maybe_await" and len(e.args) == 1 \
+                and not e.keywords and self._imported_helper("maybe_await"):
+            e, awaited = e.args[0], "maybe"
+            self.note("`await maybe_await(x(args…))` on a sink: `callMaybe` — the call is made and an awaitable result is awaited (a "
+                      "non-awaitable one handed on): the sink's work runs once whatever its spelling; a raise at call time or at await time "
+                      "propagates from this statement")
         if not isinstance(e, ast.Call):
             return None
         if isinstance(e.func, ast.Name) and self.scope.get(e.func.id) == "sink":
@@ -225,7 +242,10 @@ class SinkTranslator(pa.AsyncTranslator):
         if sc is not None:
             label, term, awaited, call = sc
             args = ", ".join(self.E(a) for a in call.args)
-            t = f"(Rbacx.PyS.call {lean_str(label)} {term} {'true' if awaited else 'false'} [{args}])"
+            if awaited == "maybe":
+                t = f"(Rbacx.PyS.callMaybe {lean_str(label)} {term} [{args}])"
+            else:
+                t = f"(Rbacx.PyS.call {lean_str(label)} {term} {'true' if awaited else 'false'} [{args}])"
             return t if not rest else f"Rbacx.PyS.seq {t} (\n{ind}{self.T(rest, ind)})"
         if isinstance(st, ast.If):
             test = self.B(st.test)
